@@ -25,9 +25,10 @@ def b64(a):
     return base64.b64encode(np.ascontiguousarray(a).tobytes()).decode("ascii")
 
 
-def make_items(nd, mix, seed):
+def make_items(nd, mix, seed, nlong=0):
     r = random.Random(seed * 7919 + 5)
     out = []
+    longs = [("x" * n) + tail for n in (65536, 4096, 4097, 70000) for tail in ("A", "B", "")][:nlong]
     for i in range(nd):
         kind = mix if mix != "mixed" else ("int" if i % 2 else "str")
         if kind == "int":
@@ -35,6 +36,9 @@ def make_items(nd, mix, seed):
             out.append(i if c < 0.6 else (-i - 1 if c < 0.8 else 2 ** 31 + 3 * i))
         else:
             out.append("cat_%d" % i if r.random() < 0.8 else "é%d_%s" % (i, "x" * (i % 7)))
+    for j, v in enumerate(longs):       # long keys sharing long prefixes replace the first items
+        if j < len(out):
+            out[j] = v
     return out
 
 
@@ -84,7 +88,7 @@ def counter_arrays(c, index, nd):
 
 
 def run_scale_counter(spec):
-    items = make_items(spec["n_distinct"], spec["mix"], spec["seed"])
+    items = make_items(spec["n_distinct"], spec["mix"], spec["seed"], spec.get("long", 0))
     index = {x: i for i, x in enumerate(items)}
     ids = draw_ids(len(items), spec["n_items"], spec["seed"] + 1, spec.get("skew", False))
     r = random.Random(spec["seed"] + 2)
